@@ -73,6 +73,10 @@ def callable_name(func: Callable[..., Any]) -> str:
     if isinstance(func, partial):
         func = func.func
 
+    # Instances of classes with a __call__() method don't have a qualified name of their own
+    if not hasattr(func, "__qualname__"):
+        func = type(func)
+
     if func.__module__ == "builtins":
         return func.__name__
     else:
